@@ -9,5 +9,5 @@ CONSTANTS
   StreamNames <- StreamsOne
   PlainNames <- PlainAll
   WholeOnly = FALSE
-INVARIANTS GeneratorValid GoFsRefines GoFsReadRefines GoManRefines PyRefines PyReadRefines UnescapersAgree EscapersRoundTrip
+INVARIANTS GeneratorValid GoFsRefines GoFsReadRefines GoManRefines PyRefines PyReadRefines UnescapersAgree EscapersRoundTrip OldSearchWasWrong OldEscapeWasWrong DoubleBackslashReadings
 CHECK_DEADLOCK FALSE
